@@ -2136,6 +2136,57 @@ func flt_filterTotal(repo string, _ []string) (string, error) {
 	ntGuard := t.text(nt.Body.List[0]) == "if isAbsentNode(n) { return nil }"
 	// any Pos()/End() in nodeText after the guard is on n
 	fmt.Fprintf(&sb, "(* runner.go: nodeText starts with `if isAbsentNode(n) { return nil }` *)\nDefinition gen_nodetext_guarded : bool := %s.\n", flt_coqBool(ntGuard))
+	// the text of a capture whose bytes cannot be read back: which node types the fallback takes apart itself before
+	// go/printer (which knows expressions, statements, declarations and specs only) is asked
+	var handled []string
+	ntText := t.text(nt.Body)
+	if strings.Contains(ntText, "if n, ok := n.(*ast.Comment); ok { return []byte(n.Text) }") {
+		handled = append(handled, "*ast.Comment")
+	}
+	viaPrintNode, recur := false, false
+	if pn := flt_findMethod(rf, "printNode"); pn != nil {
+		viaPrintNode = strings.Contains(ntText, "rr.printNode(&buf, n)") && !strings.Contains(ntText, "printer.Fprint(")
+		elemRec, fieldRec := false, false
+		ast.Inspect(pn.Body, func(nd ast.Node) bool {
+			ts, ok := nd.(*ast.TypeSwitchStmt)
+			if !ok {
+				return true
+			}
+			if t.text(ts.Assign) != "n := n.(type)" {
+				return false
+			}
+			for _, cl := range ts.Body.List {
+				cc := cl.(*ast.CaseClause)
+				body := t.stmtsText(cc.Body)
+				for _, ty := range cc.List {
+					name := t.text(ty)
+					// a case that hands the node itself to go/printer handles nothing
+					if strings.Contains(body, "printer.Fprint(buf, rr.ctx.Fset, n)") {
+						continue
+					}
+					if viaPrintNode {
+						handled = append(handled, name)
+					}
+					switch name {
+					case "*gogrep.NodeSlice":
+						elemRec = strings.Contains(body, "rr.printNode(buf, n.At(i))")
+					case "*ast.FieldList":
+						fieldRec = strings.Contains(body, "for i, field := range n.List {") && strings.Contains(body, "rr.printNode(buf, field)")
+					}
+				}
+			}
+			return false
+		})
+		recur = elemRec && fieldRec
+	}
+	sb.WriteString("(* runner.go: node types the text fallback (nodeText / printNode) takes apart itself; the parts of a node list and of a\n   field list go through printNode again *)\nDefinition gen_text_print_handled : list string := [")
+	for i, h := range handled {
+		if i > 0 {
+			sb.WriteString("; ")
+		}
+		sb.WriteString(flt_coqStr(h))
+	}
+	fmt.Fprintf(&sb, "].\nDefinition gen_text_print_recursive : bool := %s.\n", flt_coqBool(recur))
 	hm := flt_findMethod(rf, "handleMatch")
 	if hm == nil {
 		return "", fmt.Errorf("rulesRunner.handleMatch not found")
